@@ -155,3 +155,59 @@ func ZZ_C07_ConcurrentAdd() {
 	e.zzCheckInvC("concurrent-add.settled", true, false)
 	zzAssert(e.countMode(types.WO) <= 1, "C07.two-replicas-rebuilding")
 }
+
+// Two overlapping add requests for the SAME address (a replica whose registration is
+// retried, two POST /v1/replicas in flight), interleaved at the unlock window around
+// factory.Create, followed by a request that changes that replica's mode.  The address is
+// listed at most once, and the mode change does not end the controller process
+// (setReplicaModeNoLock calls logrus.Fatalf when it finds an address twice).
+func ZZ_C14_ConcurrentSameAdd() {
+	rf := zzParam("RF", 3)
+	e := zzSymbolicEnv(rf)
+	c := e.c
+	zzAssume(e.n < rf)
+	a1 := zzAddrs[e.n]
+	for i := 0; i <= e.n; i++ {
+		zzmodel.Replicas[zzAddrs[i]].RevCounter = zzNondetInt64("rev." + zzAddrs[i])
+	}
+	gate := make(chan bool, 2)
+	gf := &zzSharedGateFactory{zzFactory: e.f, gate: gate}
+	c.factory = gf
+	done := make(chan int, 2)
+	go func() { c.AddReplica(a1); done <- 1 }()
+	go func() { c.AddReplica(a1); done <- 2 }()
+	zzSettle() // both have passed (or failed) the first admission check
+	gate <- true
+	zzSettle()
+	gate <- true
+	zzSettle()
+	zzAssert(len(done) == 2, "C14.same-add.request-never-answered")
+	n := 0
+	for _, r := range c.replicas {
+		if r.Address == a1 {
+			n++
+		}
+	}
+	zzAssert(n <= 1, "C18.same-add.address-listed-twice")
+	zzTrapFatal()
+	ended := zzTry(func() { c.SetReplicaMode(a1, types.ERR) })
+	zzAssert(!ended, "C14.same-add.mode-change-terminated-the-controller")
+	zzSettle()
+	zzReach("C14.same-add.done")
+}
+
+// the second Create for an address finds the replica already open (as remote.Factory.Create
+// would: state != closed) unless the first attachment has not opened it yet
+type zzSharedGateFactory struct {
+	*zzFactory
+	gate chan bool
+}
+
+func (g *zzSharedGateFactory) Create(address string) (types.Backend, error) {
+	<-g.gate
+	m := zzmodel.Replicas[address]
+	if m != nil && m.State != "closed" && zzNondetBool("second-create-finds-replica-closed-again") {
+		m.State = "closed" // the replica was closed / restarted inside the window
+	}
+	return g.zzFactory.Create(address)
+}
